@@ -7,6 +7,18 @@ CHECKS = {
         "technique": "Rocq proof (round-trip theorem) + model/implementation correspondence",
         "ref": "DESIGN.md 5 C12",
     },
+    "C09": {
+        "text": "Kernel-checked theorems: for every history of successful appends / force-seal the concatenated writes of the writer model equal, byte for byte, the layout of an independent README-only encoder (32-byte header, 8-aligned zero-padded frames, one commit frame per batch whose CRC-32C covers exactly the bytes since the previous commit, index frame at IndexStart holding exactly the entry-frame offsets); the README-only decoder reads all of it back; constants are checked against the source by reflexivity. The model is tied to segment/*.go by byte-for-byte differential execution, and committed golden directories are opened by the current code and decoded by the README parser on every run.",
+        "note": "Guard: file < 2^32 bytes. Trusted: transcription of the README into coq/Fmt/ReadmeSpec.v, Coq kernel, extraction, harness. README 'just after the file header' wording for the first CRC range recorded as documentation discrepancy.",
+        "technique": "Rocq proof (refinement of an independent layout spec, decoder round trip) + model/implementation correspondence + golden fixtures",
+        "ref": "DESIGN.md 5 C09, 10 seg",
+    },
+    "C15": {
+        "text": "Kernel-checked theorems (segment level): every entry of every acknowledged batch is returned by the tail reader and, after sealing, by the sealed reader, for every payload length up to MaxEntrySize, every batch position and every size limit (read_frame's 64 KiB first read and exact second read are modelled); a batch with an entry above MaxEntrySize is refused without side effect; no size up to MaxEntrySize is refused. Tied to the code by the `sizes` stream over all boundary neighbourhoods; 64 MiB +- 1 run on the implementation in the thorough tier.",
+        "note": "L1 form (one segment file); guard file < 2^32 bytes.",
+        "technique": "Rocq proof (reader/writer round trip over all sizes) + model/implementation correspondence",
+        "ref": "DESIGN.md 5 C15, 10 seg",
+    },
 }
 
 _pending = "check not built yet in this round (machinery under construction; see DESIGN.md section 10)"
